@@ -791,6 +791,21 @@ func TestVerifNursery(t *testing.T) {
 	only := os.Getenv("VERIF_C13N_ONLY")
 	thorough := vTier() == "thorough"
 	master := vNewRng(vSeed())
+	// directed case of every run (both tiers, every seed): known finding
+	// C13-F4 -- baby output (expiry 103, csv 3), the node stops after block
+	// 103 (timeout tx published, mined in 104) and sleeps through the CSV
+	// delay: restart at tip 107 and 109
+	if only == "" {
+		f4 := nuSpec{Name: "f4_crib_late", H0: 100, End: 130,
+			Outs: []nuOut{{ID: 1, Kind: "baby", Expiry: 103, Csv: 3}}}
+		run(f4, -1, 0, 0, true)
+		run(f4, -1, 0, 0, false)
+		for _, cf := range []bool{true, false} {
+			run(f4, -1, 103, 3, cf) // restart at 106: still in time
+			run(f4, -1, 103, 4, cf)
+			run(f4, -1, 103, 6, cf)
+		}
+	}
 	for si, sp := range nuScenarios() {
 		if only != "" && only != sp.Name {
 			continue
